@@ -211,6 +211,30 @@ def getModifiedTs {Î± : Type} (E : Env Î±) (o : Options) (t0 : TableCollection Î
   (stageTskit E t5).bind fun t8 =>
   some (stageProv E o t8, t3.2)
 
+/-- Vocabulary of translator T5: where a value handed to `Results(...)` comes from. -/
+inductive Src
+  | none
+  /-- an attribute path such as `self.ts.mutations_node` or `fit_obj.posterior_mean` -/
+  | attr (path : String)
+  /-- element `idx` of what the call `callee(argsâ€¦)` returns (0 when it is not unpacked) -/
+  | call (callee : String) (idx : Nat) (args : List String)
+  | other (text : String)
+deriving DecidableEq, Repr
+
+/-- The `Results(...)` of one method's `run`, argument by argument, plus the methods called on
+`fit_obj.posterior_grid` before `mean_var` is evaluated. -/
+structure RunWiring where
+  method : String
+  posteriorMean : Src
+  posteriorVar : Src
+  mutationMean : Src
+  mutationVar : Src
+  mutationLik : Src
+  mutationNode : Src
+  fitObject : Src
+  prep : List String
+deriving DecidableEq, Repr
+
 /-- The wiring of `get_modified_ts` in the vocabulary of translator T5 (`Gen/Results.lean`):
 which field of `Results` reaches which consumer. Compared with the regenerated table by `decide`. -/
 def modelMdCalls : List (Tbl Ã— String Ã— String Ã— String) :=
